@@ -3,6 +3,7 @@ package sim
 import (
 	"fmt"
 	"sort"
+	"time"
 )
 
 var profiles = map[string]Profile{
@@ -62,6 +63,12 @@ func (s *Sim) opWeights() weights {
 	}
 	if s.faultOn("req_dup") {
 		w["dup"] = 3
+	}
+	if s.faultOn("deadline_race") {
+		w["timed"] = 6
+	}
+	if s.faultOn("confirm_late") {
+		w["swap_race"] = 4
 	}
 	return w
 }
@@ -472,6 +479,32 @@ func (s *Sim) genOp() (Op, bool) {
 				}
 			}
 			continue
+		case "timed":
+			if op, ok := s.genTimed(); ok {
+				return op, true
+			}
+			continue
+		case "swap_race":
+			// while a placeholder replacement waits for its (late) confirmation: touch the same application
+			var cands []Op
+			for _, o := range sh.Owed {
+				if o.Type.String() != "PLACEHOLDER_REPLACED" {
+					continue
+				}
+				for _, m := range sh.appAllocs(o.App) {
+					if m.Status == stBound && !m.Placeholder {
+						cands = append(cands, Op{Kind: "release", Key: m.Key, AppID: m.App, Type: "STOPPED_BY_RM", Fault: "swap_race"})
+					}
+				}
+				if ph := sh.Allocs[o.Key]; ph != nil && ph.Node != "" && len(sh.liveNodeIDs()) > 1 {
+					cands = append(cands, Op{Kind: "node_remove", Node: ph.Node, Fault: "swap_race"})
+				}
+			}
+			if len(cands) == 0 {
+				continue
+			}
+			s.faults["swap_race"]++
+			return pick(r, cands), true
 		default:
 			if op, ok := s.genMore(kind); ok {
 				return op, true
@@ -479,4 +512,62 @@ func (s *Sim) genOp() (Op, bool) {
 		}
 	}
 	return Op{Kind: "sched"}, true
+}
+
+// genTimed aligns an operation with a deadline of the core: the completing timeout of an application,
+// the placeholder timeout of a gang application, the reservation delay of an ask.
+func (s *Sim) genTimed() (Op, bool) {
+	r := s.rng
+	sh := s.shim
+	now := time.Since(s.simStart).Milliseconds()
+	type cand struct {
+		at  int64
+		sub Op
+	}
+	var cands []cand
+	for _, id := range sh.liveAppIDs() {
+		a := sh.Apps[id]
+		// Completing since the last reported state: a new ask exactly when the completing timer fires
+		if n := len(a.States); n > 0 && a.States[n-1] == "Completing" && a.CompletingAtMs > 0 {
+			s.nAsk++
+			ask := Op{Kind: "ask", Asks: []AskArgs{{Key: fmt.Sprintf("%s-k%d", id, s.nAsk), App: id, Res: s.genAskRes(), PreemptSelf: true}}}
+			cands = append(cands, cand{a.CompletingAtMs + s.world.Knobs.CompletingMs, ask})
+		}
+		if a.Gang && a.TimeoutMs > 0 {
+			// around the placeholder timeout: a real ask, or the release of a placeholder
+			for _, base := range []int64{a.SubmitAtMs, a.FirstPhAtMs} {
+				if base <= 0 {
+					continue
+				}
+				at := base + a.TimeoutMs
+				if tgs := sortedKeys(a.TaskGroups); len(tgs) > 0 {
+					s.nAsk++
+					tg := pick(r, tgs)
+					res := s.phRes(id, tg)
+					if res == nil {
+						res = s.genAskRes()
+					}
+					cands = append(cands, cand{at, Op{Kind: "ask", Asks: []AskArgs{{Key: fmt.Sprintf("%s-k%d", id, s.nAsk), App: id, Res: res.Clone(), TaskGroup: tg, PreemptSelf: true}}}})
+				}
+				for _, m := range sh.appAllocs(id) {
+					if m.Placeholder && m.Status == stBound {
+						cands = append(cands, cand{at, Op{Kind: "release", Key: m.Key, AppID: id, Type: "STOPPED_BY_RM"}})
+						break
+					}
+				}
+			}
+		}
+	}
+	var ok []cand
+	for _, c := range cands {
+		if c.at > now && c.at-now < 3600000 {
+			ok = append(ok, c)
+		}
+	}
+	if len(ok) == 0 {
+		return Op{}, false
+	}
+	c := pick(r, ok)
+	s.faults["deadline_race"]++
+	return Op{Kind: "timed", Ms: c.at - now, Sub: []Op{c.sub}}, true
 }
